@@ -627,7 +627,7 @@ func TestVerif_C23(t *testing.T) {
 		if a != b {
 			t.Fatalf("C23 self-test: two rebuilds of the same history differ:\n%s\n%s", a, b)
 		}
-		if r.NViolations() == 0 && !strings.Contains(a, "a=1234 s=keys;m=0 a= s=tickets;m=0 a=5 s=tickets;m=0 a= s=keys;-> rejected") {
+		if r.NViolations() == 0 && !strings.Contains(a, "m=3 a=1234 s=keys;m=0 a=5 s=tickets;m=0 a= s=keys;-> rejected") {
 			t.Fatalf("C23 self-test: unexpected trace %q", a)
 		}
 	}
@@ -652,8 +652,10 @@ func TestVerif_C23(t *testing.T) {
 		}
 		for ei := range evs {
 			ev := evs[ei]
-			next, verdict, _ := c23Step(&n.st, ev)
-			if verdict == "" {
+			next, verdict, useless := c23Step(&n.st, ev)
+			// histories are extended only by blocks GP 6.35 accepts too (the same successor is reached
+			// by the extrinsic without the useless tickets, which is in the alphabet)
+			if verdict == "" && !useless {
 				k := c23Canon(&next)
 				if !seen[k] {
 					seen[k] = true
